@@ -7,6 +7,10 @@
 #include <string.h>
 #include <stdlib.h>
 
+/* constants the compiler folded from builtins (NaN, infinities), by bit pattern */
+static inline float vt_f32_from_bits(unsigned int b) { float f; memcpy(&f, &b, sizeof f); return f; }
+static inline double vt_f64_from_bits(unsigned long b) { double f; memcpy(&f, &b, sizeof f); return f; }
+
 #ifndef VT_NATIVE_C
 unsigned char nondet_uchar(void);
 unsigned short nondet_ushort(void);
